@@ -115,8 +115,9 @@ PROPS = {
         "trusted": [
             "fnmatch is modelled for ASCII patterns without '[' (flags 0); bracket expressions are outside the model (the library "
             "panics on some of them, e.g. '[\u00e9' - observation)",
-            "set equality consulted = reached (completeness direction) is evaluated on every case by an independent recursive "
-            "descent, not yet proved",
+            "completeness (reached => consulted) is proved for policies without terminating rules "
+            "(C06_complete_without_terminating_rules); with terminating rules the set equality consulted = reached is "
+            "evaluated on every case by an independent recursive descent, not proved",
             "ListRules is not exercised yet (needs a loaded policy state)",
         ],
         "assumptions": ["Go map iteration order is irrelevant to the observables compared (principal lists are sorted)"],
